@@ -226,6 +226,12 @@ class Verdicts(object):
             reply.code = '500'
             reply.message = '5.5.2 EHLO not spoken here'
 
+    def handle_mail(self, reply, sender, params):
+        v = CUR.get('mv', {}).get(sender)
+        if v:
+            reply.code = v
+            reply.message = ('5.7.1 sender <%s> refused' if v[0] == '5' else '4.7.1 sender <%s> deferred') % sender
+
     def handle_rcpt(self, reply, recipient, params):
         v = CUR['rv'].get(recipient)
         if v:
@@ -295,7 +301,7 @@ def split_replies(wire):
 def run_smtp_hop(case):
     """case: proto smtp|lmtp, exts [names], helo, reuse, size, msgs [dict(sender, rcpts, data, verdict)]"""
     CUR.clear()
-    CUR.update(exts=set(case['exts']), servers=[], data=[], edge_codes=[], rv=dict(case.get('rv') or {}), helo=bool(case.get('helo')))
+    CUR.update(exts=set(case['exts']), servers=[], data=[], edge_codes=[], rv=dict(case.get('rv') or {}), mv=dict(case.get('mv') or {}), helo=bool(case.get('helo')))
     lmtp = case['proto'] == 'lmtp'
     queue = RecQueue([m.get('verdict') for m in case['msgs']])
     out = dict(results=[], got=queue.got, hang=False)
@@ -303,7 +309,7 @@ def run_smtp_hop(case):
                (edge_smtp_mod, 'PtrLookup', FakePtr)):
         edge = SmtpEdge(None, queue, hostname='edge.example',
                         max_size=case.get('size') if 'SIZE' in case['exts'] else None,
-                        validator_class=(Verdicts if case.get('rv') else (HeloOnly if case.get('helo') else None)),
+                        validator_class=(Verdicts if (case.get('rv') or case.get('mv')) else (HeloOnly if case.get('helo') else None)),
                         auth=('AUTH' in case['exts']), session_class=RecSession)
         socks = []
 
@@ -1017,25 +1023,30 @@ def stream_http_codec(ctx, n):
         ctx.evaluated(('rcpthdr', v), nontrivial=True)
         if r != mo:
             ctx.mismatch('_get_recipients', dict(value=v), r, mo)
-    # reply header: edge builds, relay parses
+    # reply header: edge builds, relay parses -- EVERY reply code 100..599 (the edge maps some codes to
+    # their own HTTP status), a few message texts each
     msgs = ['2.6.0 Message accepted for delivery', '', 'x', 'say "hi"', 'back\\slash', '4.3.0 Error queuing message', '\xe9', 'a; b=c', 'x" command="y', '5.7.1 no']
-    codes = ['250', '451', '550', '535', '421', '354', '221', '599', '200', '452', '552', '150']
+    special = ['250', '451', '550', '535', '421', '354', '221', '599', '200', '452', '552', '150', '530', '534', '538', '401', '503', '500', '204']
     client2 = HttpRelayClient.__new__(HttpRelayClient)
     built = []
-    for code in codes:
-        for msg in msgs:
+    for n in range(100, 600):
+        code = str(n)
+        for msg in (msgs if code in special else msgs[:1] + [msgs[3]]):
             res = _build_http_response(Reply(code, msg))
-            hv = dict(res.headers)['X-Smtp-Reply']
+            hv = dict(res.headers).get('X-Smtp-Reply')      # None = the response carries no X-Smtp-Reply (an observation)
             # what the builder is given: Reply.message (with the enhanced status code re-added)
             built.append((code, msg, Reply(code, msg).message or '', hv, res.status))
     mbs = ctx.model.batch('c06_build_reply_header', [[code, shown] for code, msg, shown, hv, st in built])
     for (code, msg, shown, hv, st), mo in zip(built, mbs):
+        ctx.evaluated(('rhb', code, msg), nontrivial=True)
         if (hv, int(st[:3])) != (U(mo[0]), mo[1]):
             ctx.mismatch('_build_http_response', dict(code=code, msg=msg), (hv, st), (U(mo[0]), mo[1]))
         rep = real_process(client2, int(st[:3]), hv)
         want = 0 if code[0] == '2' else (1 if code[0] == '5' else 2)
         if rep != (want, code):
-            _fail(ctx, 'c06:http-code-not-reported', dict(kind='rh', code=code, msg=msg), 'edge reply %s %r -> header %r -> relay reports %r' % (code, msg, hv, rep))
+            _fail(ctx, 'c06:http-code-not-reported', dict(kind='rh', code=code, msg=msg),
+                  'edge reply %s %r -> status %s, X-Smtp-Reply %r -> relay reports %r' % (code, msg, st, hv, rep))
+    built = [x for x in built if x[3] is not None]
     raws = ['', '250', '250;', ' 250 ;', '25;', '2500;', '\u0662\u0665\u0660; message="x"', '650; message="x"', '050;', 'x250;', '250 x;', '\u3000250\u3000;', '1\u0665\u0660;', '999;']
     pj = [(int(st[:3]) if k == 0 else k, hv) for code, msg, shown, hv, st in built for k in (0, 200, 404, 500)]
     pj += [(status, raw) for raw in raws for status in (204, 503, 404, 500)]
@@ -1053,7 +1064,7 @@ class _Res(object):
         self.status, self.reason, self.hv = status, 'X', hv
 
     def getheader(self, name, default=None):
-        return self.hv if name == 'X-Smtp-Reply' else default
+        return self.hv if (name == 'X-Smtp-Reply' and self.hv is not None) else default
 
     def getheaders(self):
         return [('X-Smtp-Reply', self.hv)]
@@ -1074,8 +1085,8 @@ def real_process(client, status, hv):
     """-> (0 ok | 1 permanent | 2 transient | 3 ValueError / unparsable code, code or None)"""
     client.conn = None
     r = _Result()
-    if HttpRelayClient.reply_code_pattern.match(hv):
-        m = HttpRelayClient.reply_code_pattern.match(hv)
+    if HttpRelayClient.reply_code_pattern.match(hv or ''):
+        m = HttpRelayClient.reply_code_pattern.match(hv or '')
         try:
             Reply(m.group(1))
         except ValueError:
@@ -1085,6 +1096,8 @@ def real_process(client, status, hv):
         client._process_response(_Res(status, hv), r)
     except ValueError:
         return (3, None)
+    if r.v is None:
+        return ('no-result', None)
     kind, v = r.v
     if kind == 'set':
         return (0, v.code if v is not None else None)
@@ -1248,8 +1261,8 @@ def judge_hop(ctx, case, out, transport):
                 ok = res == ('err', 'perm' if want_code[0] == '5' else 'trans', want_code)
         if not ok:
             key = 'c06:code-not-reported'
-            if transport == 'http' and i > 0 and case.get('reuse'):
-                key = 'c06:http-connection-reuse'
+            if transport == 'http' and i > 0 and case.get('reuse') and res[:2] == ('err', 'trans') and res[2] in (None, '450') and want_code != '450':
+                key = 'c06:http-connection-reuse'      # the symptom of D29: a generic transient failure on the kept-alive connection
             elif any('\\"' in a for a in [m['sender']] + m['rcpts']) and diffs:
                 key = 'c06:quoted-pair-in-address'
             _fail(ctx, key, label, 'edge answered %s for message %d, the relay reports %r' % (want_code, i, res))
@@ -1478,6 +1491,167 @@ def run_dup_hops(ctx):
     ctx.sample(dict(kind='hop-dup', recipients=[A, Bb, A, N1, Cc], rcpt_verdicts={N1: '550'}))
 
 
+# ---------------------------------------------------------------- HTTP: every reply code of the edge's queue
+CODE_KEY = 'c06:edge-reply-code-not-reported'
+CODES_ALWAYS = ['421', '450', '451', '452', '454', '500', '501', '503', '504', '530', '534', '535', '538', '550', '551', '552', '553', '554', '555', '599', '400', '499']
+
+
+def run_http_codes(ctx):
+    """the queue behind WsgiEdge refuses with each 4xx / 5xx reply code (and accepts: 250), through the real
+    HttpRelay, http.client and pywsgi: the relay must report exactly the code the queue gave"""
+    codes = CODES_ALWAYS + [str(n) for n in range(400, 600) if str(n) not in CODES_ALWAYS]
+    batches = [codes[i:i + 25] for i in range(0, len(codes), 25)]
+    for bi, batch in enumerate(batches):
+        verdicts = [None] + batch
+        msgs = [dict(sender='s@example.com', rcpts=['r%d@example.com' % k], data=SIMPLE_MSG % k, verdict=v) for k, v in enumerate(verdicts)]
+        case = dict(reuse=(bi % 2 == 0), msgs=msgs)
+        out = run_http_hop(case)
+        ctx.count('hop:http-codes', len(msgs))
+        got = {g['id']: g for g in out['got']}
+        seen = {}
+        for (code, status, hv) in out.get('replies', []):
+            seen.setdefault(code, (status, hv))
+        for k, m in enumerate(msgs):
+            want = m['verdict'] or '250'
+            ctx.evaluated(('http-code', want, case['reuse']), nontrivial=True)
+            label = dict(kind='hop', transport='http', reuse=case['reuse'], index=0,
+                         msgs=[dict(sender=m['sender'], rcpts=m['rcpts'], data=SIMPLE_MSG % 0, verdict=m['verdict'])])
+            if k >= len(out['results']):
+                _fail(ctx, 'c06:hop-hangs', label, 'no result (an earlier attempt on the connection did not return)')
+                break
+            res = out['results'][k]
+            exp = ('ok', want) if want[0] == '2' else ('err', 'perm' if want[0] == '5' else 'trans', want)
+            if k not in got:
+                _fail(ctx, 'c06:not-delivered', label, 'the envelope never reached the edge\'s queue; relay result %r' % (res,))
+            if res != exp:
+                st = seen.get(want)
+                _fail(ctx, CODE_KEY, label,
+                      'the queue behind the WSGI edge answered %s (HTTP response %r, X-Smtp-Reply %r), the relay reports %r'
+                      % (want, st[0] if st else None, st[1] if st else None, res))
+
+
+# ---------------------------------------------------------------- sequences: a failed message, then an ordinary one
+SEQ_KEY = 'c06:message-after-failed-message-not-delivered'
+UADDR = '\u65e5\u672c@example.com'
+EIGHT = b'X-Hop-Id: %d\r\nSubject: eight\r\n\r\nb\xf8dy\r\n'
+FAIL_KINDS = ['bad-sender', 'bad-first-rcpt', 'bad-later-rcpt', 'bad-last-of-3-rcpt', 'mail-rejected', 'rcpt-rejected-all',
+              'rcpt-rejected-some', 'rcpt-deferred-all', 'data-rejected-550', 'data-rejected-451', '8bit-body']
+
+
+def failing_message(kind, k):
+    """(message dict, local = nothing of it may reach the queue)"""
+    m = dict(sender='s%d@example.com' % k, rcpts=['a%d@example.com' % k, 'b%d@example.com' % k], data=SIMPLE_MSG % k, verdict=None)
+    if kind == 'bad-sender':
+        m['sender'] = UADDR
+    elif kind == 'bad-first-rcpt':
+        m['rcpts'] = [UADDR, 'b%d@example.com' % k]
+    elif kind == 'bad-later-rcpt':
+        m['rcpts'] = ['a%d@example.com' % k, UADDR]
+    elif kind == 'bad-last-of-3-rcpt':
+        m['rcpts'] = ['a%d@example.com' % k, 'b%d@example.com' % k, UADDR]
+    elif kind == 'mail-rejected':
+        m['sender'] = 'refused@example.com'
+    elif kind == 'rcpt-rejected-all':
+        m['rcpts'] = ['nobody1@example.com', 'nobody2@example.com']
+    elif kind == 'rcpt-rejected-some':
+        m['rcpts'] = ['a%d@example.com' % k, 'nobody1@example.com']
+    elif kind == 'rcpt-deferred-all':
+        m['rcpts'] = ['later@example.com']
+    elif kind == 'data-rejected-550':
+        m['verdict'] = '550'
+    elif kind == 'data-rejected-451':
+        m['verdict'] = '451'
+    elif kind == '8bit-body':
+        m['data'] = EIGHT % k
+    return m
+
+
+SEQ_RV = {'nobody1@example.com': '550', 'nobody2@example.com': '550', 'later@example.com': '450'}
+SEQ_MV = {'refused@example.com': '550'}
+
+
+def seq_cases(ctx):
+    """one connection, 2-3 messages: an earlier message fails locally or remotely in each way, a later ordinary
+    message follows.  Server configurations: without SMTPUTF8 (and, for the 8-bit kind, without 8BITMIME),
+    PIPELINING on / off, HELO fallback; smtp and lmtp"""
+    cases = []
+    for proto in ('smtp', 'lmtp'):
+        for cfg in ('pipelining', 'plain', 'helo'):
+            if cfg == 'helo' and proto == 'lmtp':
+                continue
+            exts = {'pipelining': ['PIPELINING'], 'plain': [], 'helo': ['PIPELINING', '8BITMIME', 'SMTPUTF8']}[cfg]
+            for kind in FAIL_KINDS:
+                shapes = [[kind, 'ok'], ['ok', kind, 'ok'], [kind, kind, 'ok']] if not ctx.quick or kind.startswith('bad') else [[kind, 'ok'], ['ok', kind, 'ok']]
+                for shape in shapes:
+                    msgs = []
+                    for k, what in enumerate(shape):
+                        if what == 'ok':
+                            msgs.append(dict(sender='ok%d@example.com' % k, rcpts=['x%d@example.com' % k, '"y %d"@example.com' % k],
+                                             data=SIMPLE_MSG % k, verdict=None, ordinary=True))
+                        else:
+                            msgs.append(failing_message(what, k))
+                    cases.append(dict(proto=proto, exts=exts, helo=(cfg == 'helo'), reuse=True, size=10 ** 7,
+                                      rv=dict(SEQ_RV), mv=dict(SEQ_MV), msgs=msgs, shape=shape))
+    return cases
+
+
+def run_sequences(ctx):
+    for case in seq_cases(ctx):
+        out = run_smtp_hop(case)
+        ctx.count('hop-seq:%s' % case['proto'])
+        pub = dict(kind='hop', transport='smtp', proto=case['proto'], exts=sorted(case['exts']), helo=case['helo'], reuse=True,
+                   rv=case['rv'], mv=case['mv'], shape=case['shape'],
+                   msgs=[dict(sender=m['sender'], rcpts=m['rcpts'], data=m['data'], verdict=m.get('verdict')) for m in case['msgs']])
+        byid = {}
+        for g in out['got']:
+            byid.setdefault(g['id'], []).append(g)
+        eff = set() if case['helo'] else set(case['exts'])
+        for k, m in enumerate(case['msgs']):
+            ctx.evaluated(('hop-seq', case['proto'], tuple(case['exts']), case['helo'], tuple(case['shape']), k), nontrivial=True)
+            res = out['results'][k] if k < len(out['results']) else ('missing',)
+            label = dict(pub, index=k)
+            if res in (('hang',), ('missing',)):
+                _fail(ctx, 'c06:hop-hangs', label, 'attempt() did not return for message %d of %r' % (k, case['shape']))
+                break
+            if m.get('ordinary'):
+                # metamorphic: the same message alone on a fresh connection to the same edge
+                solo = run_smtp_hop(dict(case, reuse=False, msgs=[m]))
+                sres = solo['results'][0] if solo['results'] else ('missing',)
+                sgot = [dict(g, id=None) for g in solo['got']]
+                here = [dict(g, id=None) for g in byid.get(k, [])]
+                env = make_env(m)
+                hd, body = env.flatten()
+                intact = (len(here) == 1 and here[0]['sender'] == m['sender'] and here[0]['rcpts'] == m['rcpts']
+                          and here[0]['hdr'] == hd and here[0]['body'] == expected_body(hd, body))
+                okres = res[0] == 'ok' and isinstance(res[1], dict) and all(v == '250' for v in res[1].values()) and list(res[1].keys()) == m['rcpts']
+                if res != sres or here != sgot or not intact or not okres:
+                    _fail(ctx, SEQ_KEY, label,
+                          'after %r on the same connection, message %d (sender %r) is reported %r and reaches the queue as %r; '
+                          'alone on a fresh connection: %r / %r'
+                          % (case['shape'][:k], k, m['sender'], res, [(g['sender'], g['rcpts']) for g in here], sres,
+                             [(g['sender'], g['rcpts']) for g in sgot]))
+            else:
+                kind = case['shape'][k]
+                local = kind.startswith('bad') or kind == '8bit-body'
+                if kind.startswith('bad') and 'SMTPUTF8' in eff:
+                    local = False
+                if kind == '8bit-body' and '8BITMIME' in eff:
+                    local = False
+                if local and (res[0] == 'ok' or byid.get(k)):
+                    _fail(ctx, 'c06:unsendable-message-sent', label, 'message %d (%s) could not be sent as it is, yet: result %r, queue %r' % (k, kind, res, byid.get(k)))
+        # nothing but the messages of the case may be in the queue (no empty or merged envelopes)
+        for g in out['got']:
+            if g['id'] is None or g['id'] >= len(case['msgs']) or len(byid.get(g['id'], [])) > 1:
+                _fail(ctx, 'c06:unexpected-envelope-queued', pub, 'the edge queued sender=%r rcpts=%r body=%r, which no message of the case is' % (g['sender'], g['rcpts'], g['body'][:60]))
+                break
+            m = case['msgs'][g['id']]
+            want_r = [r for r in m['rcpts'] if not case['rv'].get(r)]
+            if g['sender'] != m['sender'] or g['rcpts'] != want_r:
+                _fail(ctx, 'c06:unexpected-envelope-queued', pub, 'the edge queued sender=%r rcpts=%r for message %d (sender %r, accepted recipients %r)'
+                      % (g['sender'], g['rcpts'], g['id'], m['sender'], want_r))
+                break
+
+
 def run_hops(ctx):
     cases = probe_cases() + hop_cases(ctx)
     for case in cases:
@@ -1534,7 +1708,7 @@ def run_http_hops(ctx, n):
             # environ built by the real pywsgi vs the model's merge
             e = out['environ'][j]
             want_r = ','.join(v for k, v in out['headers'][j] if k == 'X-Envelope-Recipient')
-            if e.get('HTTP_X_ENVELOPE_RECIPIENT') != want_r or e.get('HTTP_X_ENVELOPE_SENDER', '') != dict(out['headers'][j])['X-Envelope-Sender']:
+            if e.get('HTTP_X_ENVELOPE_RECIPIENT') != want_r or e.get('HTTP_X_ENVELOPE_SENDER', '') != dict(out['headers'][j]).get('X-Envelope-Sender'):
                 ctx.mismatch('wsgi-environ', dict(msg=m), e, want_r)
             if C20_inclass(hd):
                 o = ctx.model.call('c06_http_hop', [',', 'relay.example', m['sender'], m['rcpts'], hd, body])
@@ -1575,6 +1749,8 @@ def run(ctx):
     stream_extensions(ctx, 300 if q else 4000, 4 if q else 5)
     stream_base64(ctx, 300 if q else 3000, 5 if q else 6)
     stream_http_codec(ctx, 150 if q else 2000)
+    run_http_codes(ctx)
+    run_sequences(ctx)
     run_dup_hops(ctx)
     run_hops(ctx)
     run_http_hops(ctx, 30 if q else 300)
@@ -1607,7 +1783,7 @@ def replay(ctx, case):
                 print('model (D16 scanner):', dec_addr_res(ctx.model.call('c06_parse_mail_d16', rc[1])))
         return 0
     if kind == 'hop':
-        hop = dict(proto=c.get('proto'), exts=c.get('exts', []), helo=c.get('helo'), reuse=c.get('reuse'), size=10 ** 7, msgs=c['msgs'], rv=c.get('rv') or {})
+        hop = dict(proto=c.get('proto'), exts=c.get('exts', []), helo=c.get('helo'), reuse=c.get('reuse'), size=10 ** 7, msgs=c['msgs'], rv=c.get('rv') or {}, mv=c.get('mv') or {})
         out = run_http_hop(hop) if c.get('transport') == 'http' else run_smtp_hop(hop)
         if hop['rv']:
             print('RCPT verdicts of the edge:', hop['rv'])
